@@ -13,7 +13,7 @@ MUTABLE_KINDS = ('list', 'dict', 'od', 'dd', 'deque', 'custom')
 @st.composite
 def map_cases(draw, ml):
     t = draw(gen.tree_descs(ml))
-    sub = gen.tree_descs(4, max_depth=3)
+    sub = gen.tree_descs(4, max_depth=3, min_leaves=2)
     rests, rels = [], []
     for _ in range(draw(st.sampled_from([0, 1, 1, 2, 3]))):
         rel = draw(st.sampled_from(['same', 'suffix', 'suffix', 'dict_variant', 'suffix_variant', 'near_miss']))
